@@ -212,7 +212,9 @@ impl BytesSerializable for Permissions {
         bytes.put_u8(if self.global.read_topics { 1 } else { 0 });
         bytes.put_u8(if self.global.poll_messages { 1 } else { 0 });
         bytes.put_u8(if self.global.send_messages { 1 } else { 0 });
-        if let Some(streams) = &self.streams {
+        // An empty table has no entry to write, so it is encoded like a missing one: the decoder reads
+        // at least one entry after the marker.
+        if let Some(streams) = self.streams.as_ref().filter(|streams| !streams.is_empty()) {
             bytes.put_u8(1);
             let streams_count = streams.len();
             let mut current_stream = 1;
@@ -224,7 +226,7 @@ impl BytesSerializable for Permissions {
                 bytes.put_u8(if stream.read_topics { 1 } else { 0 });
                 bytes.put_u8(if stream.poll_messages { 1 } else { 0 });
                 bytes.put_u8(if stream.send_messages { 1 } else { 0 });
-                if let Some(topics) = &stream.topics {
+                if let Some(topics) = stream.topics.as_ref().filter(|topics| !topics.is_empty()) {
                     bytes.put_u8(1);
                     let topics_count = topics.len();
                     let mut current_topic = 1;
